@@ -438,6 +438,10 @@ class CallMixin(object):
             if isinstance(v, PyTuple):
                 return GList([GEntry(z3.BoolVal(True), x) for x in v.items]) if o is list else v
             if isinstance(v, GList):
+                if o is tuple:
+                    if all(z3.is_true(simp(en.guard)) or en.guard.eq(st.guard) for en in v.entries):
+                        return PyTuple([en.val for en in v.entries])
+                    raise EngineError('tuple() of a conditionally built list')
                 return v.copy()
             if isinstance(v, PyObj) and isinstance(v.o, (list, tuple, set, frozenset, dict)):
                 return self.lift(list(v.o))
